@@ -6,6 +6,9 @@ HERE = os.path.dirname(os.path.dirname(os.path.abspath(__file__)))
 
 # id -> (technique, level text, level note, design ref)
 CLAIMED = {
+ "C08": ("E7 expression-tree reconstruction of the ntor computations compared with spec terms + no-write-through-parameter ownership rules over go/ssa",
+         "Decides that status, KEY_SEED and AUTH of both roles are the deployed expressions over the right operands (each X25519 output zero-tested before reuse, all five inputs hashed in the deployed order, roles crossed correctly), that Kdf is one length-independent HKDF stream, and that Kdf/handshakes/key constructors neither modify nor mangle their inputs. Equality with an independent computation is not decided.",
+         "go/types+go/ssa faithful; checker/spec/ntor.json transcribes the deployed ntor", "DESIGN.md section 4, C08"),
  "C01": ("layout agreement (linear-term comparison), ownership/who-writes, closed-world guard sets, typestate (drain-before-block), loop-exit and phi-web analysis, reader/writer field partition over go/ssa",
          "Decides structural necessary conditions of exact delivery: writer/reader packet layout agree; only the authenticated, length-validated payload slice reaches the application buffer and nothing else gates it; encoder/decoder frame lock-step and all-or-nothing field reads; Write chops b without gaps and flushes all frames; handshake remainder kept and decoded before blocking; loops exit only with data or fatal error; short-read discipline incl. bytes returned with an error; Read and Write paths share no unsynchronised mutable state. Equality of delivered bytes under all chunkings/interleavings is not decided.",
          "go/types+go/ssa faithful; bytes.Buffer/encoding/binary behave as documented", "DESIGN.md section 4, C01"),
